@@ -9,6 +9,10 @@ Task kinds (a task = case = replay unit):
           base configuration (every family is executed once; the products above run on one representative
           family per rot_type because the family is only a database index there).
   field   CMPA ROTKH field writer on synthetic hash patterns (zero bytes at either end).
+  hist    operation histories on ONE object of the classes with an incremental API (CertBlockV1: set_root_key_hash /
+          add_certificate; RKHTv1: set_rkh): every sequence of <= 4 (thorough 5) operations over {set slot i in 0..3 to
+          key A|B, read every accessor}; after every read and at the end rkth / rkth_fuses / str() / rkh / rkh_index /
+          export() / parse(export()).rkth must be the ones of the table AS IT IS NOW.
 
 Encoding assignment of a key list = one encoding per key.  Enumerated: the path's base encoding for all keys;
 every single departure (position x non-base encoding); all keys in the same non-base encoding; all keys as file
@@ -29,8 +33,9 @@ Clauses
                               root key record || ISK header || ISK key || user data, or verifies under another root
   C03.isk-fields              ISK certificate fields (key, user data, constraints, offset) are not the ones given
   C03.cmpa-field              CMPA.export(rotkh=h) does not store h (zero padded) in the ROTKH field
-  C03.family-dispatch         Rot(family) / CMPA(family) / debug credential of a family disagrees with the
-                              construction the database names for it
+  C03.family-dispatch         Rot(family, revision) / `nxpcrypto rot -f -r` / CMPA / debug credential of a family x
+                              revision disagrees with the construction the database names for THAT revision
+  C03.history                 a value read from a CertBlockV1 / RKHTv1 object is not the one of its table as it is now
 Discriminators: exceptions -> "<Type>@<innermost spsdk frame>"; value clauses -> construction + failure kind + the
 dimensions (path, alg, n, idx, enc, mode, lz) in which the failing set is smaller than the judged set (computed over
 the whole run, so one defect gives one discriminator whatever number of key lists it hits).
@@ -362,12 +367,14 @@ def p_cmpa(family: str) -> Callable:
     return f
 
 
-def p_dat(family: str) -> Callable:
+def p_dat(family: str, revision: Optional[str] = None) -> Callable:
     def f(inputs: list, idx: Optional[int], ctx: dict) -> dict:
         from spsdk.dat.debug_credential import DebugCredentialCertificate
 
         cfg = {"family": family, "uuid": "00" * 16, "cc_socu": 0x3FF, "cc_vu": 0, "cc_beacon": 0,
                "rot_meta": list(inputs), "rot_id": idx, "rotk": ctx["rotk"][idx], "dck": ctx["dck"]}
+        if revision:
+            cfg["revision"] = revision
         dc = DebugCredentialCertificate.create_from_yaml_config(cfg)
         return {"hash": dc.calculate_hash(), "meta": dc.rot_meta.export(), "cls": type(dc).__name__}
     return f
@@ -1152,13 +1159,40 @@ def w_isk(task: dict) -> dict:
 # task kinds "family" and "field"
 
 
+def _cli_rot_hash(fam: str, rev: str, paths: list, tmp: str) -> bytes:
+    """`nxpcrypto rot calculate-hash -f <family> -r <revision> -k ... -o file` through click's CliRunner."""
+    from click.testing import CliRunner
+
+    from spsdk.apps import nxpcrypto
+    from spsdk.exceptions import SPSDKError
+
+    nxpcrypto.spsdk_logger.install = lambda *a, **k: None
+    o = os.path.join(tmp, "fam_hash.bin")
+    if os.path.exists(o):
+        os.remove(o)
+    args = ["rot", "calculate-hash", "-f", fam, "-r", rev, "-o", o]
+    for p in paths:
+        args += ["-k", p]
+    res = CliRunner().invoke(nxpcrypto.main, args, catch_exceptions=True)
+    if res.exit_code != 0:
+        exc = res.exception
+        if exc is None or isinstance(exc, SystemExit):
+            raise SPSDKError(f"nxpcrypto exit code {res.exit_code}: {res.output[-120:]}")
+        raise exc
+    return open(o, "rb").read()
+
+
 def w_family(task: dict) -> dict:
+    """One database family x revision: the expected construction is the one the database names for THAT revision
+    (generic accessor get_db(family, revision)); the tools are asked with the revision given explicitly."""
     logging.disable(logging.CRITICAL)
     t = Tally(task)
     src = Src()
     fam, rev, what = task["family"], task.get("revision", "latest"), task["what"]
     from spsdk.utils.database import DatabaseManager, get_db
 
+    db = get_db(fam, rev)
+    revkind = "latest" if rev == "latest" else ("differs-from-latest" if task.get("differs") else "named")
     wctx = {"tmp": tempfile.mkdtemp(prefix="c03f-", dir=os.path.dirname(mat()["dir"]))}
     try:
         for alg in ALGS:
@@ -1166,20 +1200,20 @@ def w_family(task: dict) -> dict:
             nums = [src.num(nm) for nm in names]
             wctx["dck"] = src.path(names[0], "pub_pem")
             wctx["rotk"] = [src.path(nm, "priv_pem") for nm in names]
-            dims = {"path": f"{what}(family)", "alg": alg, "family": fam}
-            focus = {"path": what, "label": alg}
+            runs = []  # (via, callable)
             if what == "rot":
                 from spsdk.utils.crypto.rot import Rot
 
-                rt = get_db(fam, rev).get_str(DatabaseManager.CERT_BLOCK, "rot_type")
+                rt = db.get_str(DatabaseManager.CERT_BLOCK, "rot_type")
                 cons = ROT_CONS.get(rt)
                 enc = "cert_pem" if cons == "hab" else "pub_pem"
-                r = call(lambda: Rot(fam, rev, keys_or_certs=[src.get(nm, enc) for nm in names]).calculate_hash())
+                runs.append(("Rot", lambda: Rot(fam, rev, keys_or_certs=[src.get(nm, enc) for nm in names]).calculate_hash()))
+                runs.append(("cli", lambda: _cli_rot_hash(fam, rev, [src.path(nm, enc) for nm in names], wctx["tmp"])))
                 exp = expected(cons, nums, [0] * 4) if cons else None
             elif what == "cmpa":
                 from spsdk.pfr.pfr import CMPA
 
-                rt = get_db(fam, rev).get_str(DatabaseManager.CERT_BLOCK, "rot_type")
+                rt = db.get_str(DatabaseManager.CERT_BLOCK, "rot_type")
                 cons = ROT_CONS.get(rt)
 
                 def f():
@@ -1187,40 +1221,44 @@ def w_family(task: dict) -> dict:
                     reg = c.registers.find_reg("ROTKH")
                     d = c.export(keys=[src.get(nm, "obj_pub") for nm in names], draw=False)
                     return d[reg.offset:reg.offset + reg.width // 8]
-                r = call(f)
+                runs.append(("CMPA", f))
                 exp = expected(cons, nums, [0] * 4) if cons in ("v1", "v21") else None
-                if exp is not None and r[0] == "ok":
-                    exp = {"hash": exp["hash"].ljust(len(r[1]), b"\x00")}
             else:  # dat
-                from spsdk.dat.debug_credential import DebugCredentialCertificate as DC
-
-                ele = get_db(fam, rev).get_bool(DatabaseManager.DAT, "based_on_ele", False)
-                cnt = get_db(fam, rev).get_int(DatabaseManager.DAT, "ele_cnt_version", 1) if ele else 0
+                ele = db.get_bool(DatabaseManager.DAT, "based_on_ele", False)
+                cnt = db.get_int(DatabaseManager.DAT, "ele_cnt_version", 1) if ele else 0
                 if cnt == 2:
                     t.count("dat_ele_v2_not_covered")
                     continue
                 cons = "ahab" if ele else ("v1" if alg.startswith("rsa") else "v21")
-                r = call(lambda: p_dat(fam)([src.path(nm, "pub_pem") for nm in names], 1, wctx)["hash"])
+                runs.append(("dat", lambda: p_dat(fam, None if rev == "latest" else rev)(
+                    [src.path(nm, "pub_pem") for nm in names], 1, wctx)["hash"]))
                 # the debug authentication protocol has no version for RSA-3072
                 exp = expected(cons, nums, [0] * 4) if alg != "rsa3072" else None
-            t.count("evaluations_total")
-            t.count(f"path:{what}(family)")
-            if r[0] == "SPSDKError":
-                t.count("rejected")
-                continue
-            if r[0] != "ok":
-                if exp is not None:
-                    t.fail("C03.undocumented-exception", "exc", r[1], dims, f"{what} {fam}/{rev} {alg} raised {r[1]}: {r[2]}", focus)
-                else:
-                    t.count("refused_with_non_spsdk_error")
-                continue
-            if exp is None:
-                t.count("accepted_without_reference")
-                continue
-            t.judged("family:" + what, dims)
-            if bytes(r[1]) != exp["hash"]:
-                t.fail("C03.family-dispatch", "family:" + what, "wrong-hash", dims,
-                       f"{what} {fam}/{rev} {alg} (database construction {cons}) -> {_hx(r[1])}, construction {_hx(exp['hash'])}", focus)
+            for via, fn in runs:
+                dims = {"path": f"{what}(family)", "alg": alg, "family": fam, "via": via, "rev": revkind}
+                focus = {"path": what, "label": alg}
+                r = call(fn)
+                t.count("evaluations_total")
+                t.count(f"path:{what}(family)")
+                if r[0] == "SPSDKError":
+                    t.count("rejected")
+                    continue
+                if r[0] != "ok":
+                    if exp is not None:
+                        t.fail("C03.undocumented-exception", "exc", r[1], dims,
+                               f"{what} {fam}/{rev} {alg} via {via} raised {r[1]}: {r[2]}", focus)
+                    else:
+                        t.count("refused_with_non_spsdk_error")
+                    continue
+                if exp is None:
+                    t.count("accepted_without_reference")
+                    continue
+                want = exp["hash"].ljust(len(r[1]), b"\x00") if what == "cmpa" else exp["hash"]
+                t.judged("family:" + what, dims)
+                if bytes(r[1]) != want:
+                    t.fail("C03.family-dispatch", "family:" + what, "wrong-hash", dims,
+                           f"{what} {fam}/{rev} {alg} via {via} (database construction of this revision: {cons}) -> "
+                           f"{_hx(r[1])}, construction {_hx(want)}", focus)
     finally:
         shutil.rmtree(wctx["tmp"], ignore_errors=True)
     return t.result()
@@ -1287,8 +1325,166 @@ def w_field(task: dict) -> dict:
     return t.result()
 
 
+# ---------------------------------------------------------------------------------------------
+# task kind "hist": operation histories on ONE object of the classes with an incremental API
+
+
+HIST_KEYS = ["rsa2048_0", "rsa2048_1"]  # key A (its non-CA certificate is the block's certificate), key B
+
+
+def hist_ops(cls: str, tier: str) -> list:
+    """Alphabet: set slot i (0..3) to key k (A as Certificate / B as 32-byte hash for CertBlockV1; hashes for RKHTv1),
+    read (every accessor), and - CertBlockV1 started without a certificate, thorough - add the certificate."""
+    ops = [["set", i, k] for i in range(4) for k in (0, 1)] + [["read"]]
+    if cls == "CertBlockV1/empty":
+        ops.append(["addcert"])
+    return ops
+
+
+def _hist_run(t: Tally, cls: str, ops: list, src: Src, hk: list) -> None:
+    """Execute one history on a fresh object; after every `read` and at the end the values read must be the ones of
+    the table AS IT IS NOW: reference = list of slots (zero hash in gaps) -> 4 x 32 B table -> SHA-256."""
+    from spsdk.crypto.certificate import Certificate
+    from spsdk.utils.crypto.cert_blocks import CertBlockV1
+    from spsdk.utils.crypto.rkht import RKHTv1
+
+    from vf.ref import certblock_v1 as CB1
+
+    block = cls.startswith("CertBlockV1")
+    if block:
+        obj = CertBlockV1(build_number=1)
+        has_cert = cls == "CertBlockV1"
+        if has_cert:
+            obj.add_certificate(src.get(HIST_KEYS[0], "obj_cert"))
+    else:
+        obj = RKHTv1([])
+        has_cert = False
+    slots: list = []
+    reads_before_last_set = False
+    seen_read = False
+
+    def check(step: int) -> None:
+        table = b"".join(slots).ljust(128, b"\x00")
+        want = hashlib.sha256(table).digest()
+        dims = {"path": cls, "len": len(ops), "after_read": "set-after-read" if reads_before_last_set else "no-earlier-read"}
+        focus = {"ops": ops}
+        what = f"{cls} history {ops} (checked after step {step})"
+        kind_sfx = "stale-after-read" if reads_before_last_set else "wrong"
+
+        def bad(obs: str, detail: str) -> None:
+            t.fail("C03.history", "hist:" + cls.split("/")[0], f"{obs}:{kind_sfx}", dims, f"{what}: {detail}", focus)
+
+        t.judged("hist:" + cls.split("/")[0], dims)
+        if block:
+            r = call(lambda: obj.rkth)
+        else:
+            r = call(obj.rkth)
+        if r[0] != "ok":
+            bad("rkth-raises", str(r[1:]))
+            return
+        view = want  # the other views of the hash are compared with the definition, or - when rkth itself is already
+        if r[1] != want:  # reported - with the rkth just read, so that one stale value gives one finding
+            bad("rkth", f"rkth {_hx(r[1])}, table as it is now gives {_hx(want)}")
+            view = r[1]
+        r = call(lambda: obj.export() if not block else b"".join(obj.rkh).ljust(128, b"\x00"))
+        if not block:
+            if r[0] == "ok" and r[1] != table:
+                bad("table", f"export() {_hx(r[1])}, slots {_hx(table)}")
+            if r[0] == "ok":
+                r2 = call(lambda: RKHTv1.parse(r[1]).rkth())
+                if r2[0] != "ok" or r2[1] != want:
+                    bad("parsed-rkth", f"parse(export()).rkth() {r2[1:] if r2[0] != 'ok' else _hx(r2[1])}")
+            return
+        if r[0] == "ok" and r[1] != table:
+            bad("rkh", f".rkh {_hx(r[1])}, slots {_hx(table)}")
+        r = call(lambda: obj.rkth_fuses)
+        if r[0] != "ok" or list(r[1]) != R.rkth_fuses(view):
+            bad("rkth_fuses", f"rkth_fuses {r[1] if r[0] != 'ok' else [hex(x) for x in r[1]]} for {_hx(view)}")
+        r = call(lambda: str(obj))
+        if r[0] != "ok" or f"RKTH (SHA256): {view.hex().upper()}" not in r[1]:
+            bad("str", f"str(block) does not show RKTH {view.hex().upper()}")
+        cert_hash = hk[0]
+        want_index = slots.index(cert_hash) if (has_cert and cert_hash in slots) else None
+        r = call(lambda: obj.rkh_index)
+        if r[0] != "ok" or r[1] != want_index:
+            bad("rkh_index", f"rkh_index {r[1:]} for slots with the certificate's key at {want_index}")
+        r = call(obj.export)
+        t.count("history_exports")
+        if r[0] == "SPSDKError":
+            t.count("history_exports_refused")
+            return
+        if r[0] != "ok":
+            bad("export-raises", str(r[1:]))
+            return
+        data = r[1]
+        try:
+            b = CB1.read(data, 0, alignment=16)
+            if b["rkth"] != want or b"".join(b["rkh"]) != table:
+                bad("export", f"RKTH a ROM computes from export() {_hx(b['rkth'])}, table as it is now gives {_hx(want)}")
+        except CB1.CertBlockError as e:
+            if want_index is not None:
+                bad("export", f"ROM-side reader refuses export(): {e}")
+        r2 = call(lambda: CertBlockV1.parse(data).rkth)
+        if r2[0] != "ok" or r2[1] != want:
+            bad("parsed-rkth", f"parse(export()).rkth {r2[1:] if r2[0] != 'ok' else _hx(r2[1])}, expected {_hx(want)}")
+
+    for step, op in enumerate(ops):
+        if op[0] == "set":
+            _, i, k = op
+            while len(slots) <= i:
+                slots.append(bytes(32))
+            slots[i] = hk[k]
+            if seen_read:
+                reads_before_last_set = True
+            if block:
+                arg = src.get(HIST_KEYS[0], "obj_cert") if k == 0 else hk[1]
+                r = call(lambda: obj.set_root_key_hash(i, arg))
+            else:
+                r = call(lambda: obj.set_rkh(i, hk[k]))
+            if r[0] != "ok":
+                t.fail("C03.history", "hist:" + cls.split("/")[0], "set-raises", {"path": cls, "len": len(ops)},
+                       f"{cls} history {ops}: step {step} raised {r[1:]}", {"ops": ops})
+                return
+        elif op[0] == "addcert":
+            r = call(lambda: obj.add_certificate(src.get(HIST_KEYS[0], "obj_cert")))
+            if r[0] == "ok":
+                has_cert = True
+            else:
+                t.count("history_addcert_refused")  # a second certificate must be signed by the first
+        else:
+            seen_read = True
+            check(step)
+        t.count("history_steps")
+    check(len(ops))
+
+
+def w_hist(task: dict) -> dict:
+    logging.disable(logging.CRITICAL)
+    t = Tally(task)
+    src = Src()
+    cls = task["cls"]
+    hk = [R.rkh_v1(src.num(nm)) for nm in HIST_KEYS]
+    alphabet = hist_ops(cls, task["tier"])
+    if task.get("focus"):
+        _hist_run(t, cls, task["focus"]["ops"], src, hk)
+        return t.result()
+    first = alphabet[task["first"]]
+    for extra in range(task["depth"]):
+        for rest in itertools.product(alphabet, repeat=extra):
+            ops = [first] + [list(o) for o in rest]
+            if ops[-1] == ["read"] and len(ops) > 1:
+                continue  # the final check reads anyway: a history ending in `read` equals its prefix
+            _hist_run(t, cls, ops, src, hk)
+            t.count("histories")
+            t.count("evaluations_total")
+            t.count(f"path:history[{cls}]")
+    return t.result()
+
+
 def worker(task: dict) -> dict:
     k = task["k"]
+    if k == "hist":
+        return w_hist(task)
     if k == "seq":
         return w_seq(task)
     if k == "isk":
@@ -1322,6 +1518,11 @@ def build_tasks(tier: str, seed: int) -> list:
         for seq in sequences():
             tasks.append({"k": "seq", "alg": alg, "seq": seq, "tier": tier, "seed": seed})
     q = tier == "quick"
+    # operation histories: every sequence of <= depth operations, one task per first operation
+    for cls, depth in (("RKHTv1", 4 if q else 5), ("CertBlockV1", 4 if q else 5), ("CertBlockV1/empty", 0 if q else 4)):
+        if depth:
+            for first in range(len(hist_ops(cls, tier))):
+                tasks.append({"k": "hist", "cls": cls, "first": first, "depth": depth, "tier": tier})
     for alg in ("p256", "p384"):
         other = "p384" if alg == "p256" else "p256"
         for seq in sequences():
@@ -1330,25 +1531,39 @@ def build_tasks(tier: str, seed: int) -> list:
                           "isk_algs": [alg, other] if (not q or len(seq) <= 2) else [alg],
                           "ud_lens": list(range(0, ISK_LIMIT + 1, 4)) if (base or (not q and len(seq) == 1)) else [0, 4, 8, ISK_LIMIT],
                           "hows": ["ctor", "config"] + (["config-cert"] if not q else [])})
-    # every family (x revision): dispatch at the base configuration
+    # every family: dispatch at the base configuration of the latest revision, AND (both tiers) of every revision whose
+    # database values for the features the RoT code reads differ from the latest revision's; thorough: every revision
     dbm = DatabaseManager()
+
+    def differing(fam: str, feats: tuple) -> list:
+        def snap(rev: str) -> str:
+            d = get_db(fam, rev).features
+            return core.jdump({f: d.get(f) for f in feats})
+        latest = snap("latest")
+        return [r for r in sorted(dbm.db.devices.get(fam).revisions.revision_names()) if snap(r) != latest]
+
+    def fam_tasks(what: str, fam: str, feats: tuple) -> None:
+        diff = differing(fam, feats)
+        tasks.append({"k": "family", "what": what, "family": fam, "revision": "latest"})
+        named = sorted(dbm.db.devices.get(fam).revisions.revision_names()) if not q else diff
+        for rev in named:
+            tasks.append({"k": "family", "what": what, "family": fam, "revision": rev, "differs": rev in diff})
+
     for fam in Rot.get_supported_families():
-        revs = ["latest"] + (sorted(dbm.db.devices.get(fam).revisions.revision_names()) if not q else [])
-        for rev in revs:
-            tasks.append({"k": "family", "what": "rot", "family": fam, "revision": rev})
+        fam_tasks("rot", fam, (DatabaseManager.CERT_BLOCK,))
     for fam in CMPA.get_supported_families():
         try:
             CMPA(family=fam).registers.find_reg("ROTKH")
         except Exception:  # noqa - no ROTKH register in this family's CMPA
             continue
-        tasks.append({"k": "family", "what": "cmpa", "family": fam})
+        fam_tasks("cmpa", fam, (DatabaseManager.CERT_BLOCK, DatabaseManager.PFR))
         tasks.append({"k": "field", "family": fam, "seed": seed})
     for fam in DC.get_supported_families():
         try:
             get_db(fam).get_str(DatabaseManager.CERT_BLOCK, "rot_type")
         except Exception:  # noqa - no RoT in the database for this family (mcxa: no keys)
             continue
-        tasks.append({"k": "family", "what": "dat", "family": fam})
+        fam_tasks("dat", fam, (DatabaseManager.CERT_BLOCK, DatabaseManager.DAT))
     return tasks
 
 
@@ -1416,7 +1631,11 @@ def run(ctx: core.Ctx) -> None:
         "every database revision. (b) every EC key list x used root x ISK key x user-data length {0,4,8,96; every multiple "
         "of 4 up to 96 for the full 4-key list} x {constructor, from_config}; (c) every database family through "
         "Rot/CMPA/debug credential at the base configuration; (d) CMPA ROTKH field on 7 byte patterns x 2 lengths per "
-        "family. distinct_nontrivial = evaluations accepted by the tool AND compared with the independent construction "
+        "family; the family tasks use Rot(family, revision) AND the CLI with -r, for the latest revision and (both tiers) for "
+        "every revision whose database values (cert_block / dat / pfr features) differ from the latest one. (e) object "
+        "histories: CertBlockV1 (certificate of key A added) and RKHTv1, every sequence of <= 4 (thorough 5) operations "
+        "over {set slot 0..3 to key A|B (8), read all accessors}; thorough also CertBlockV1 started empty with add_certificate "
+        "in the alphabet. distinct_nontrivial = evaluations accepted by the tool AND compared with the independent construction "
         "(rejected / undefined ones are counted separately)")
     fails: list = []
     tried: dict = {}
@@ -1462,7 +1681,7 @@ def run(ctx: core.Ctx) -> None:
     c = ctx.counters
     for tsk in (next(x for x in tasks if x["k"] == "seq" and x["alg"] == "p256" and len(x["seq"]) == 3),
                 next(x for x in tasks if x["k"] == "isk"), next(x for x in tasks if x["k"] == "family"),
-                next(x for x in tasks if x["k"] == "field")):
+                next(x for x in tasks if x["k"] == "field"), next(x for x in tasks if x["k"] == "hist")):
         ctx.sample(tsk)
     complete = [b for b in sorted(total_bound) if done_bound.get(b, 0) == total_bound[b]]
     ctx.cov["bounds_completed"] = {"key_list_lengths_completed": [b for b in complete if b > 0],
@@ -1508,6 +1727,8 @@ def run(ctx: core.Ctx) -> None:
         "is imported); one control evaluation per RSA key and private encoding runs with the real loader",
         "debug credentials are built from a YAML-style configuration and only asked for calculate_hash() / rot_meta (never signed); "
         "EdgeLock container v2 credentials (mimx943/mimx9596) are not covered",
+        "CertBlockV21 and RKHTv21 have no incremental mutators (the block is computed once from the constructor arguments by "
+        "calculate()), so object histories exist for CertBlockV1 and RKHTv1 only",
         "Rot classes, CLI, CMPA and debug-credential products run on one representative family per rot_type / register layout; "
         "every family (thorough: every revision) is executed once at the base configuration (task kind 'family')",
     ]
